@@ -120,6 +120,30 @@ var genesisVariants = map[string]func(gs map[string]json.RawMessage, cdc codec.C
 	},
 }
 
+// refusedGenesis: genesis contents a correct node refuses at InitChain (it panics). What matters for C09: the verdict, and the
+// state if it starts at all, must be the same on every node.
+var refusedGenesis = map[string]func(gs map[string]json.RawMessage, cdc codec.Codec){
+	"aol-one-malformed-topic-key": func(gs map[string]json.RawMessage, cdc codec.Codec) {
+		B, W := world.NewAccount("B"), world.NewAccount("W")
+		g := aoltypes.GenesisState{Owners: map[string]*aoltypes.Owner{B.Bech: {TotalTopics: 12}}, Topics: map[string]*aoltypes.Topic{},
+			Writers: map[string]*aoltypes.Writer{}, Records: map[string]*aoltypes.Record{}}
+		for i := 0; i < 12; i++ {
+			tn := fmt.Sprintf("g%02d", i)
+			g.Topics[B.Bech+"/"+tn] = &aoltypes.Topic{Description: tn, TotalWriters: 1, TotalRecords: 1}
+			g.Writers[B.Bech+"/"+tn+"/"+W.Bech] = &aoltypes.Writer{Moniker: "w", NanoTimestamp: 5}
+			g.Records[B.Bech+"/"+tn+"/0"] = &aoltypes.Record{Key: []byte("k"), Value: []byte("v"), NanoTimestamp: 5, WriterAddress: W.Bech}
+		}
+		g.Topics["panacea1notanaddress/g-bad"] = &aoltypes.Topic{Description: "malformed owner part"}
+		gs["aol"] = cdc.MustMarshalJSON(&g)
+	},
+	"did-one-malformed-key": func(gs map[string]json.RawMessage, cdc codec.Codec) {
+		e := newDidEnv()
+		docs := bulkDIDs(e, 8)
+		docs["not-a-did"] = &didtypes.DIDDocumentWithSeq{Document: e.doc("D1", e.DIDs[0]), Sequence: 1}
+		gs["did"] = cdc.MustMarshalJSON(&didtypes.GenesisState{Documents: docs})
+	},
+}
+
 type RunOpts struct {
 	CheckTxBefore   bool           `json:"check_tx_before"`
 	SimulateBefore  bool           `json:"simulate_before"`
